@@ -285,7 +285,7 @@ pub fn property(tier: Tier) -> Property {
             panic_is_violation: false,
             render: |c: &Mixed| c.render(),
             rule: "a mixed history (insertions, unions, rewrite iterations, then ematch_all, class listing and extraction; explanations rendered under that feature) replayed in 3 fresh threads one after another and in 3 fresh threads concurrently with 4 threads that build other e-graphs, mint fresh slots and intern other symbols; transcripts must be byte-identical; non-trivial = the transcript contains a fresh slot name, at least 2 matches and an extraction; distinct by rendered history",
-            case_timeout_s: tier.pick(120, 600),
+            case_timeout_s: tier.pick(30, 120),
             exhaustive: false,
         }));
     }
@@ -299,7 +299,7 @@ pub fn property(tier: Tier) -> Property {
             panic_is_violation: false,
             render: |c: &ProcCase| format!("{} preintern_variation={}", c.base.render(), c.preintern_variation),
             rule: "the same kind of history replayed in 2 separate processes (different environment size, ASLR) whose stdout (transcript plus EGraph::dump output) must be byte-identical and (for languages without Symbol payloads) agree with the in-process transcript; in half of the cases the second process first interns the history's Symbol payloads in reverse order, as another thread could have done",
-            case_timeout_s: tier.pick(120, 600),
+            case_timeout_s: tier.pick(30, 120),
             exhaustive: false,
         }));
     }
